@@ -10,7 +10,7 @@ import itertools, random
 from . import common as C, progrun as R
 
 PROP = "C12"
-MODULES = ["RuschmProofs.C12", "RuschmProofs.C12More"]
+MODULES = ["RuschmProofs.C12", "RuschmProofs.C12More", "RuschmProofs.C12Seq"]
 EXPORTS = {"a": 1, "b": 2, "c": 3, "d": 4}
 NAMES = ["a", "b", "c", "d"]
 
